@@ -252,8 +252,9 @@ def main():
         wall_s=round(time.time() - t0, 1),
         violations=len(oracle_v) + len(corr_v) + (1 if broken and not corr_v and not oracle_v else 0),
         known_findings=sorted(printed_known))
-    os.makedirs(os.path.join(VERIF, "evidence"), exist_ok=True)
-    with open(os.path.join(VERIF, "evidence", pid + ".json"), "w") as f:
+    evdir = os.path.join(VERIF, "evidence") if not os.environ.get("VERIF_DEV") else os.path.join(os.environ.get("VERIF_SCRATCH", "/tmp"), "verif-dev-evidence")
+    os.makedirs(evdir, exist_ok=True)
+    with open(os.path.join(evdir, pid + ".json"), "w") as f:
         json.dump(ev, f, indent=1, default=str)
     print("%s tier=%s seed=%d: %d cases, %d non-trivial, %d inconclusive, %d disagreements, %d oracle failures, lean %d/%d, %.0fs" % (
         pid, tier, seed, st["evaluations"], len(st["nontrivial"]), st["inconclusive"], st["disagreements"], st["oracle_failures"],
